@@ -902,243 +902,24 @@ func (p *Posix) fileToObjVersions(bucket string) backend.GetVersionsFunc {
 			}, nil
 		}
 
-		// file object, get object info and fill out object data
-		etagBytes, err := p.meta.RetrieveAttribute(nil, bucket, path, etagkey)
-		if errors.Is(err, fs.ErrNotExist) {
-			return nil, backend.ErrSkipObj
+		// file object: collect every version of the key in listing order (the
+		// current version first, then the archived ones from the newest to the
+		// oldest, the null version placed by its archive time), then cut the
+		// list at the version-id marker (exclusive) and at the room left on
+		// the page
+		type verEntry struct {
+			vid string
+			obj *types.ObjectVersion
+			dm  *types.DeleteMarkerEntry
 		}
-		if err != nil && !errors.Is(err, meta.ErrNoSuchKey) {
-			return nil, fmt.Errorf("get etag: %w", err)
-		}
-		// note: meta.ErrNoSuchKey will return etagBytes = []byte{}
-		// so this will just set etag to "" if its not already set
-		etag := string(etagBytes)
+		var entries []verEntry
 
-		// If the object doesn't have versionId, it's 'null'
-		versionId := "null"
-		versionIdBytes, err := p.meta.RetrieveAttribute(nil, bucket, path, versionIdKey)
-		if err == nil {
-			versionId = string(versionIdBytes)
-		}
-		if versionId == versionIdMarker {
-			*pastVersionIdMarker = true
-		}
-		if *pastVersionIdMarker {
-			fi, err := d.Info()
+		// makeEntry builds the entry of one version: dir/name hold the file
+		// and its attributes
+		makeEntry := func(dir, name, vid string, fi fs.FileInfo, latest bool) (*verEntry, error) {
+			etagBytes, err := p.meta.RetrieveAttribute(nil, dir, name, etagkey)
 			if errors.Is(err, fs.ErrNotExist) {
-				return nil, backend.ErrSkipObj
-			}
-			if err != nil {
-				return nil, fmt.Errorf("get fileinfo: %w", err)
-			}
-
-			size := fi.Size()
-
-			isDel, err := p.isObjDeleteMarker(bucket, path)
-			if err != nil {
-				return nil, err
-			}
-
-			if isDel {
-				delMarkers = append(delMarkers, types.DeleteMarkerEntry{
-					IsLatest:     getBoolPtr(true),
-					VersionId:    &versionId,
-					LastModified: backend.GetTimePtr(fi.ModTime()),
-					Key:          &path,
-				})
-			} else {
-				// Retreive checksum
-				checksum, err := p.retrieveChecksums(nil, bucket, path)
-				if err != nil && !errors.Is(err, meta.ErrNoSuchKey) {
-					return nil, fmt.Errorf("get checksum: %w", err)
-				}
-
-				objects = append(objects, types.ObjectVersion{
-					ETag:              &etag,
-					Key:               &path,
-					LastModified:      backend.GetTimePtr(fi.ModTime()),
-					Size:              &size,
-					VersionId:         &versionId,
-					IsLatest:          getBoolPtr(true),
-					StorageClass:      types.ObjectVersionStorageClassStandard,
-					ChecksumAlgorithm: []types.ChecksumAlgorithm{checksum.Algorithm},
-					ChecksumType:      checksum.Type,
-				})
-			}
-
-			availableObjCount--
-			if availableObjCount == 0 {
-				return &backend.ObjVersionFuncResult{
-					ObjectVersions:      objects,
-					DelMarkers:          delMarkers,
-					Truncated:           true,
-					NextVersionIdMarker: versionId,
-				}, nil
-			}
-		}
-
-		if !p.versioningEnabled() {
-			return &backend.ObjVersionFuncResult{
-				ObjectVersions: objects,
-				DelMarkers:     delMarkers,
-			}, nil
-		}
-
-		// List all the versions of the object in the versioning directory
-		versionPath := p.genObjVersionPath(bucket, path)
-		dirEnts, err := os.ReadDir(versionPath)
-		if errors.Is(err, fs.ErrNotExist) {
-			return &backend.ObjVersionFuncResult{
-				ObjectVersions: objects,
-				DelMarkers:     delMarkers,
-			}, nil
-		}
-		if err != nil {
-			return nil, fmt.Errorf("read version dir: %w", err)
-		}
-
-		if len(dirEnts) == 0 {
-			return &backend.ObjVersionFuncResult{
-				ObjectVersions: objects,
-				DelMarkers:     delMarkers,
-			}, nil
-		}
-
-		// First find the null versionId object(if exists)
-		// before starting the object versions listing
-		var nullVersionIdObj *types.ObjectVersion
-		var nullObjDelMarker *types.DeleteMarkerEntry
-		nf, err := os.Stat(filepath.Join(versionPath, nullVersionId))
-		if err != nil && !errors.Is(err, fs.ErrNotExist) {
-			return nil, err
-		}
-		if err == nil {
-			isDel, err := p.isObjDeleteMarker(versionPath, nullVersionId)
-			if err != nil {
-				return nil, err
-			}
-
-			// Check to see if the null versionId object is delete marker or not
-			if isDel {
-				nullObjDelMarker = &types.DeleteMarkerEntry{
-					VersionId:    backend.GetPtrFromString("null"),
-					LastModified: backend.GetTimePtr(nf.ModTime()),
-					Key:          &path,
-					IsLatest:     getBoolPtr(false),
-				}
-			} else {
-				etagBytes, err := p.meta.RetrieveAttribute(nil, versionPath, nullVersionId, etagkey)
-				if errors.Is(err, fs.ErrNotExist) {
-					return nil, backend.ErrSkipObj
-				}
-				if err != nil && !errors.Is(err, meta.ErrNoSuchKey) {
-					return nil, fmt.Errorf("get etag: %w", err)
-				}
-				// note: meta.ErrNoSuchKey will return etagBytes = []byte{}
-				// so this will just set etag to "" if its not already set
-				etag := string(etagBytes)
-				size := nf.Size()
-				// Retreive checksum
-				checksum, err := p.retrieveChecksums(nil, versionPath, nullVersionId)
-				if err != nil && !errors.Is(err, meta.ErrNoSuchKey) {
-					return nil, fmt.Errorf("get checksum: %w", err)
-				}
-
-				nullVersionIdObj = &types.ObjectVersion{
-					ETag:         &etag,
-					Key:          &path,
-					LastModified: backend.GetTimePtr(nf.ModTime()),
-					Size:         &size,
-					VersionId:    backend.GetPtrFromString("null"),
-					IsLatest:     getBoolPtr(false),
-					StorageClass: types.ObjectVersionStorageClassStandard,
-					ChecksumAlgorithm: []types.ChecksumAlgorithm{
-						checksum.Algorithm,
-					},
-					ChecksumType: checksum.Type,
-				}
-			}
-		}
-
-		isNullVersionIdObjFound := nullVersionIdObj != nil || nullObjDelMarker != nil
-
-		if len(dirEnts) == 1 && (isNullVersionIdObjFound) {
-			if nullObjDelMarker != nil {
-				delMarkers = append(delMarkers, *nullObjDelMarker)
-			}
-			if nullVersionIdObj != nil {
-				objects = append(objects, *nullVersionIdObj)
-			}
-
-			if availableObjCount == 1 {
-				return &backend.ObjVersionFuncResult{
-					ObjectVersions:      objects,
-					DelMarkers:          delMarkers,
-					Truncated:           true,
-					NextVersionIdMarker: nullVersionId,
-				}, nil
-			} else {
-				return &backend.ObjVersionFuncResult{
-					ObjectVersions: objects,
-					DelMarkers:     delMarkers,
-				}, nil
-			}
-		}
-
-		isNullVersionIdObjAdded := false
-
-		for i := len(dirEnts) - 1; i >= 0; i-- {
-			dEntry := dirEnts[i]
-			// Skip the null versionId object to not
-			// break the object versions list
-			if dEntry.Name() == nullVersionId {
-				continue
-			}
-
-			f, err := dEntry.Info()
-			if errors.Is(err, fs.ErrNotExist) {
-				continue
-			}
-			if err != nil {
-				return nil, fmt.Errorf("get fileinfo: %w", err)
-			}
-
-			// If the null versionId object is found, first push it
-			// by checking its creation date, then continue the adding
-			if isNullVersionIdObjFound && !isNullVersionIdObjAdded {
-				if nf.ModTime().After(f.ModTime()) {
-					if nullVersionIdObj != nil {
-						objects = append(objects, *nullVersionIdObj)
-					}
-					if nullObjDelMarker != nil {
-						delMarkers = append(delMarkers, *nullObjDelMarker)
-					}
-
-					isNullVersionIdObjAdded = true
-
-					if availableObjCount--; availableObjCount == 0 {
-						return &backend.ObjVersionFuncResult{
-							ObjectVersions:      objects,
-							DelMarkers:          delMarkers,
-							Truncated:           true,
-							NextVersionIdMarker: nullVersionId,
-						}, nil
-					}
-				}
-			}
-			versionId := f.Name()
-			size := f.Size()
-
-			if !*pastVersionIdMarker {
-				if versionId == versionIdMarker {
-					*pastVersionIdMarker = true
-				}
-				continue
-			}
-
-			etagBytes, err := p.meta.RetrieveAttribute(nil, versionPath, versionId, etagkey)
-			if errors.Is(err, fs.ErrNotExist) {
-				return nil, backend.ErrSkipObj
+				return nil, nil
 			}
 			if err != nil && !errors.Is(err, meta.ErrNoSuchKey) {
 				return nil, fmt.Errorf("get etag: %w", err)
@@ -1146,66 +927,148 @@ func (p *Posix) fileToObjVersions(bucket string) backend.GetVersionsFunc {
 			// note: meta.ErrNoSuchKey will return etagBytes = []byte{}
 			// so this will just set etag to "" if its not already set
 			etag := string(etagBytes)
-
-			isDel, err := p.isObjDeleteMarker(versionPath, versionId)
+			isDel, err := p.isObjDeleteMarker(dir, name)
 			if err != nil {
 				return nil, err
 			}
-
+			versionId := vid
 			if isDel {
-				delMarkers = append(delMarkers, types.DeleteMarkerEntry{
+				return &verEntry{vid: vid, dm: &types.DeleteMarkerEntry{
+					IsLatest:     getBoolPtr(latest),
 					VersionId:    &versionId,
-					LastModified: backend.GetTimePtr(f.ModTime()),
+					LastModified: backend.GetTimePtr(fi.ModTime()),
 					Key:          &path,
-					IsLatest:     getBoolPtr(false),
-				})
-			} else {
-				// Retreive checksum
-				checksum, err := p.retrieveChecksums(nil, versionPath, versionId)
-				if err != nil && !errors.Is(err, meta.ErrNoSuchKey) {
-					return nil, fmt.Errorf("get checksum: %w", err)
-				}
-				objects = append(objects, types.ObjectVersion{
-					ETag:              &etag,
-					Key:               &path,
-					LastModified:      backend.GetTimePtr(f.ModTime()),
-					Size:              &size,
-					VersionId:         &versionId,
-					IsLatest:          getBoolPtr(false),
-					StorageClass:      types.ObjectVersionStorageClassStandard,
-					ChecksumAlgorithm: []types.ChecksumAlgorithm{checksum.Algorithm},
-					ChecksumType:      checksum.Type,
-				})
+				}}, nil
+			}
+			checksum, err := p.retrieveChecksums(nil, dir, name)
+			if err != nil && !errors.Is(err, meta.ErrNoSuchKey) {
+				return nil, fmt.Errorf("get checksum: %w", err)
+			}
+			size := fi.Size()
+			return &verEntry{vid: vid, obj: &types.ObjectVersion{
+				ETag:              &etag,
+				Key:               &path,
+				LastModified:      backend.GetTimePtr(fi.ModTime()),
+				Size:              &size,
+				VersionId:         &versionId,
+				IsLatest:          getBoolPtr(latest),
+				StorageClass:      types.ObjectVersionStorageClassStandard,
+				ChecksumAlgorithm: []types.ChecksumAlgorithm{checksum.Algorithm},
+				ChecksumType:      checksum.Type,
+			}}, nil
+		}
+
+		// the current version; if the object doesn't have versionId, it's 'null'
+		curVersionId := "null"
+		versionIdBytes, err := p.meta.RetrieveAttribute(nil, bucket, path, versionIdKey)
+		if err == nil {
+			curVersionId = string(versionIdBytes)
+		}
+		fi, err := d.Info()
+		if errors.Is(err, fs.ErrNotExist) {
+			return nil, backend.ErrSkipObj
+		}
+		if err != nil {
+			return nil, fmt.Errorf("get fileinfo: %w", err)
+		}
+		cur, err := makeEntry(bucket, path, curVersionId, fi, true)
+		if err != nil {
+			return nil, err
+		}
+		if cur == nil {
+			return nil, backend.ErrSkipObj
+		}
+		entries = append(entries, *cur)
+
+		// the archived versions
+		if p.versioningEnabled() {
+			versionPath := p.genObjVersionPath(bucket, path)
+			dirEnts, err := os.ReadDir(versionPath)
+			if err != nil && !errors.Is(err, fs.ErrNotExist) {
+				return nil, fmt.Errorf("read version dir: %w", err)
 			}
 
-			// if the available object count reaches to 0, return truncated response with nextVersionIdMarker
+			// the null version has no time in its name: it takes its place
+			// in the list by its archive time
+			var nullEntry *verEntry
+			var nullTime time.Time
+			for _, dEntry := range dirEnts {
+				if dEntry.Name() != nullVersionId {
+					continue
+				}
+				nf, err := dEntry.Info()
+				if errors.Is(err, fs.ErrNotExist) {
+					break
+				}
+				if err != nil {
+					return nil, fmt.Errorf("get fileinfo: %w", err)
+				}
+				nullEntry, err = makeEntry(versionPath, nullVersionId, nullVersionId, nf, false)
+				if err != nil {
+					return nil, err
+				}
+				nullTime = nf.ModTime()
+			}
+
+			for i := len(dirEnts) - 1; i >= 0; i-- {
+				dEntry := dirEnts[i]
+				if dEntry.Name() == nullVersionId {
+					continue
+				}
+				f, err := dEntry.Info()
+				if errors.Is(err, fs.ErrNotExist) {
+					continue
+				}
+				if err != nil {
+					return nil, fmt.Errorf("get fileinfo: %w", err)
+				}
+				if nullEntry != nil && nullTime.After(f.ModTime()) {
+					entries = append(entries, *nullEntry)
+					nullEntry = nil
+				}
+				e, err := makeEntry(versionPath, f.Name(), f.Name(), f, false)
+				if err != nil {
+					return nil, err
+				}
+				if e != nil {
+					entries = append(entries, *e)
+				}
+			}
+			if nullEntry != nil {
+				entries = append(entries, *nullEntry)
+			}
+		}
+
+		// the page starts behind the version named by the marker
+		if !*pastVersionIdMarker {
+			*pastVersionIdMarker = true
+			idx := -1
+			for i := range entries {
+				if entries[i].vid == versionIdMarker {
+					idx = i
+					break
+				}
+			}
+			if idx < 0 {
+				entries = nil
+			} else {
+				entries = entries[idx+1:]
+			}
+		}
+
+		for _, e := range entries {
+			if e.dm != nil {
+				delMarkers = append(delMarkers, *e.dm)
+			} else {
+				objects = append(objects, *e.obj)
+			}
 			availableObjCount--
 			if availableObjCount == 0 {
 				return &backend.ObjVersionFuncResult{
 					ObjectVersions:      objects,
 					DelMarkers:          delMarkers,
 					Truncated:           true,
-					NextVersionIdMarker: versionId,
-				}, nil
-			}
-		}
-
-		// If null versionId object is found but not yet pushed,
-		// push it after the listing, as it's the oldest object version
-		if isNullVersionIdObjFound && !isNullVersionIdObjAdded {
-			if nullVersionIdObj != nil {
-				objects = append(objects, *nullVersionIdObj)
-			}
-			if nullObjDelMarker != nil {
-				delMarkers = append(delMarkers, *nullObjDelMarker)
-			}
-
-			if availableObjCount--; availableObjCount == 0 {
-				return &backend.ObjVersionFuncResult{
-					ObjectVersions:      objects,
-					DelMarkers:          delMarkers,
-					Truncated:           true,
-					NextVersionIdMarker: nullVersionId,
+					NextVersionIdMarker: e.vid,
 				}, nil
 			}
 		}
